@@ -112,7 +112,7 @@ def jobs(tier):
         for dll in ('j1939-21', 'j1939-22'):
             for addr in (0, 1, 100, 127, 128, 200, 246, 247, 251, 252):
                 for state in CA_STATES:
-                    hops = {'moved': 1, 'moved_lost_waiting': 1, 'moved_twice': 2, 'bypassed_moved': 1}.get(state, 0)
+                    hops = {'moved': 1, 'moved_lost_waiting': 1, 'moved_twice': 2, 'bypassed_moved': 1, 'vetoed_moved': 1}.get(state, 0)
                     if addr + hops > 253:
                         continue
                     if state == 'wait_veto' and not 128 <= addr <= 247:
